@@ -202,6 +202,8 @@ pub struct Exec {
     pub table: Table<Item>,
     pub item_kind: u64,
     items: HashMap<u64, usize>,
+    tnode: Table<Node>,
+    tnode_items: HashMap<(u32, u32, u32), usize>,
     pub cache: Cache<(u64, u64), u64>,
     cache_shadow: HashMap<usize, ((u64, u64), u64)>,
     cache_lookups: usize,
@@ -252,6 +254,8 @@ impl Exec {
             table: Table::with_bucket_bits(0, 0),
             item_kind: 0,
             items: HashMap::new(),
+            tnode: Table::with_bucket_bits(0, 0),
+            tnode_items: HashMap::new(),
             cache: Cache::new(0),
             cache_shadow: HashMap::new(),
             cache_lookups: 0,
@@ -1009,6 +1013,7 @@ impl Exec {
             }
             t if t.starts_with("eda.") => self.step_eda(toks),
             t if t.starts_with("t.") => self.step_table(toks),
+            t if t.starts_with("tn.") => self.step_tnode(toks),
             t if t.starts_with("c.") => self.step_cache(toks),
             t if t.starts_with("ck.") => self.step_kcache(toks),
             t if t.starts_with("raw.") => self.step_raw(toks),
@@ -1808,6 +1813,68 @@ impl Exec {
                 }
             }
             "t.dump" => table_snapshot(&self.table, |it: &Item| it.v.to_string()),
+            _ => "bad-op".into(),
+        }
+    }
+
+    // ------------------------------------------------------------------ Table<Node>
+
+    fn step_tnode(&mut self, toks: &[&str]) -> String {
+        match toks[0] {
+            "tn.new" => {
+                self.tnode = Table::with_bucket_bits(toks[1].parse().unwrap(), toks[2].parse().unwrap());
+                self.tnode_items.clear();
+                "ok".into()
+            }
+            "tn.put" => {
+                let (v, lo, hi): (u32, u32, u32) = (toks[1].parse().unwrap(), toks[2].parse().unwrap(), toks[3].parse().unwrap());
+                if lo < 2 || hi < 2 {
+                    return "bad-op".into();
+                }
+                let node = Node { variable: v, low: Ref::new(lo >> 1, lo & 1 == 1), high: Ref::new(hi >> 1, hi & 1 == 1) };
+                let r = catch_unwind(AssertUnwindSafe(|| self.tnode.put(node)));
+                match r {
+                    Ok(i) => {
+                        let key = (v, lo, hi);
+                        match self.tnode_items.get(&key) {
+                            Some(&j) if j != i => self.fail(&["C17", "C01"], format!("put({:?}) returned {} but the triple lives in cell {}", key, i, j)),
+                            Some(_) => {}
+                            None => {
+                                if i == 0 || self.tnode_items.values().any(|&j| j == i) {
+                                    let other = self.tnode_items.iter().find(|e| *e.1 == i).map(|e| *e.0);
+                                    self.fail(&["C17", "C01"], format!("put({:?}) returned cell {}, which holds the different triple {:?}", key, i, other));
+                                }
+                                self.tnode_items.insert(key, i);
+                            }
+                        }
+                        self.nontrivial.insert(fnv1a(&format!("tnput {:?} {}", key, i)));
+                        let got = self.tnode.value(i);
+                        if (got.variable, raw_of(got.low) as u32, raw_of(got.high) as u32) != key && self.tnode_items.get(&key) == Some(&i) {
+                            self.fail(&["C17", "C01"], format!("cell {} does not hold the triple just put", i));
+                        }
+                        i.to_string()
+                    }
+                    Err(p) => {
+                        let c = panic_class(p);
+                        if c != "full" {
+                            self.fail(&["C17"], format!("table panicked ({})", c));
+                        }
+                        format!("panic {}", c)
+                    }
+                }
+            }
+            "tn.drop" => {
+                let i: usize = toks[1].parse().unwrap();
+                let r = catch_unwind(AssertUnwindSafe(|| self.tnode.drop(i)));
+                match r {
+                    Ok(()) => {
+                        self.tnode_items.retain(|_, j| *j != i);
+                        "ok".into()
+                    }
+                    Err(p) => format!("panic {}", panic_class(p)),
+                }
+            }
+            "tn.dump" => table_snapshot(&self.tnode, |n: &Node| format!("{},{},{}", n.variable, raw_of(n.low), raw_of(n.high))),
             _ => "bad-op".into(),
         }
     }
